@@ -1,1 +1,152 @@
-(* C17 stub: to be written *)
+(* C17 -- CRLB, its gradient and confidence intervals match their defining formulas.
+   Only statements, each closed by [exact], followed by Print Assumptions.
+   F: any field with conjugation (FieldLaws); inv: numpy.linalg.inv, assumed to return a two-sided inverse of the
+   matrix it is given (checked by [inv_ok_b] next to every evaluation of the correspondence). *)
+From Coq Require Import List ZArith QArith Reals.
+From Coquelicot Require Import Coquelicot.
+From EPG Require Import Scalar QI State StatsTables Stats StatsProofs.
+Import ListNotations.
+
+(* crlb(J, W, sigma2) = tr(W B) for every right inverse B of Re(J^H J)/sigma2 *)
+Theorem C17_crlb_formula (F : FieldOps) (L : FieldLaws F) (inv : mat F -> mat F) (n p : nat) (J : mat F)
+  (W : option (list F)) (sigma2 : F) :
+  is_rinv F p (mget (inv (fisher n p sigma2 J))) (mget (fisher n p sigma2 J)) ->
+  forall B : nat -> nat -> F, is_rinv F p (fisher_spec F n sigma2 J) B ->
+  crlb inv n p J W sigma2 = ksum p (fun a => (wget W a * B a a)%K).
+Proof. exact (crlb_formula F L inv n p J W sigma2). Qed.
+Print Assumptions C17_crlb_formula.
+
+(* differential-ring lemmas: A B = I = B A  ==>  dB = - B dA B ;  d tr(W B) = - tr(W B dA B) ;
+   d Re(J^H J) = Re(dJ^H J + J^H dJ) *)
+Theorem C17_d_inverse (F : FieldOps) (L : FieldLaws F) (p : nat) (A B : nat -> nat -> F) :
+  is_rinv F p A B -> is_rinv F p B A -> forall d : F -> F, Deriv F d ->
+  forall i j, (i < p)%nat -> (j < p)%nat ->
+  d (B i j) = (- ksum p (fun k => ksum p (fun l => B i k * d (A k l) * B l j)))%K.
+Proof. exact (d_inverse F L p A B). Qed.
+Print Assumptions C17_d_inverse.
+
+Theorem C17_d_gram (F : FieldOps) (L : FieldLaws F) (d : F -> F) (D : Deriv F d) (n : nat) (J : nat -> nat -> F) a b :
+  d (kre (ksum n (fun k => (kconj (J k a) * J k b)%K))) =
+  kre (ksum n (fun k => kconj (d (J k a)) * J k b) + ksum n (fun k => kconj (J k a) * d (J k b)))%K.
+Proof. exact (d_gram F L d D n J a b). Qed.
+Print Assumptions C17_d_gram.
+
+(* the gradient returned with H is the exact derivative of the returned cost, for every derivation (direction x)
+   whose action on the entries of J is stored in H[.,.,x] *)
+Theorem C17_crlb_grad_exact (F : FieldOps) (L : FieldLaws F) (inv : mat F -> mat F) (n p : nat) (J : mat F)
+  (W : option (list F)) (sigma2 : F) :
+  is_rinv F p (mget (fisher n p sigma2 J)) (mget (inv (fisher n p sigma2 J))) ->
+  is_rinv F p (mget (inv (fisher n p sigma2 J))) (mget (fisher n p sigma2 J)) ->
+  forall (nx : nat) (H : ten3 F) (dd : nat -> F -> F),
+  (forall x, (x < nx)%nat -> Deriv F (dd x)) ->
+  (forall x k a, (x < nx)%nat -> (k < n)%nat -> (a < p)%nat -> t3get H k a x = dd x (mget J k a)) ->
+  kconj sigma2 = sigma2 -> sigma2 <> k0 ->
+  (forall x, (x < nx)%nat -> dd x sigma2 = k0) ->
+  (forall x a, (x < nx)%nat -> (a < p)%nat -> dd x (wget W a) = k0) ->
+  forall x, (x < nx)%nat ->
+  vget (crlb_grad inv n p nx J H W sigma2) x = dd x (crlb inv n p J W sigma2).
+Proof. exact (crlb_grad_exact F L inv n p J W sigma2). Qed.
+Print Assumptions C17_crlb_grad_exact.
+
+(* log=True: (log10 cost, grad / cost / ln 10) is (value, derivative) of log10 o cost  (real level) *)
+Theorem C17_crlb_log (f : R -> R) (x g : R) :
+  is_derive f x g -> (0 < f x)%R -> is_derive (fun u => crlb_log_cost (f u)) x (crlb_log_grad (f x) g).
+Proof. exact (crlb_log_grad_exact f x g). Qed.
+Print Assumptions C17_crlb_log.
+
+(* crlb_split returns the weighted diagonal of the inverse Fisher matrix *)
+Theorem C17_crlb_split_diag (F : FieldOps) (L : FieldLaws F) (inv : mat F -> mat F) (n p : nat) (J : mat F)
+  (W : option (list F)) (sigma2 : F) :
+  is_rinv F p (mget (inv (fisher n p sigma2 J))) (mget (fisher n p sigma2 J)) ->
+  forall a, (a < p)%nat -> forall B : nat -> nat -> F, is_rinv F p (fisher_spec F n sigma2 J) B ->
+  vget (crlb_split inv n p J W sigma2) a = (B a a * wget W a)%K.
+Proof. exact (crlb_split_diag F L inv n p J W sigma2). Qed.
+Print Assumptions C17_crlb_split_diag.
+
+(* confint: variances = SSE/dof * diag(inverse of the property's matrix Re(J^H J) [- residual-weighted Hessian]),
+   when no Hessian is given, or when the source has the contraction over n and the minus sign *)
+Theorem C17_confint_formula (F : FieldOps) (L : FieldLaws F) (inv : mat F -> mat F) (n p : nat) (obs pred : list F)
+  (J : mat F) (outer plus : bool) (H : option (ten3 F)) :
+  is_rinv F p (mget (confint_info outer plus n p J H (residual n obs pred)))
+              (mget (inv (confint_info outer plus n p J H (residual n obs pred)))) ->
+  is_rinv F p (mget (inv (confint_info outer plus n p J H (residual n obs pred))))
+              (mget (confint_info outer plus n p J H (residual n obs pred))) ->
+  forall B : nat -> nat -> F,
+  H = None \/ outer = false /\ plus = false ->
+  is_rinv F p (info_spec F n obs pred J H) B ->
+  forall a, (a < p)%nat ->
+  vget (confint_var inv outer plus n p obs pred J H) a = (B a a * (sse_spec F n obs pred * kinv (kofnat (n - p))))%K.
+Proof. exact (confint_formula F L inv n p obs pred J outer plus H). Qed.
+Print Assumptions C17_confint_formula.
+
+(* ... and for every setting of the switches, what the code really inverts *)
+Theorem C17_confint_code_formula (F : FieldOps) (L : FieldLaws F) (inv : mat F -> mat F) (n p : nat) (obs pred : list F)
+  (J : mat F) (outer plus : bool) (H : option (ten3 F)) :
+  is_rinv F p (mget (confint_info outer plus n p J H (residual n obs pred)))
+              (mget (inv (confint_info outer plus n p J H (residual n obs pred)))) ->
+  is_rinv F p (mget (inv (confint_info outer plus n p J H (residual n obs pred))))
+              (mget (confint_info outer plus n p J H (residual n obs pred))) ->
+  forall B : nat -> nat -> F,
+  is_rinv F p (info_code F n obs pred J outer plus H) B ->
+  forall a, (a < p)%nat ->
+  vget (confint_var inv outer plus n p obs pred J H) a = (B a a * (sse_spec F n obs pred * kinv (kofnat (n - p))))%K.
+Proof. exact (confint_code_formula F L inv n p obs pred J outer plus H). Qed.
+Print Assumptions C17_confint_code_formula.
+
+(* half-widths = tval * sqrt(variance) *)
+Theorem C17_confint_cints (F : FieldOps) (inv : mat F -> mat F) (n p : nat) (obs pred : list F) (J : mat F)
+  (outer plus : bool) (H : option (ten3 F)) (sqrt : F -> F) (tval : F) (a : nat) : (a < p)%nat ->
+  vget (confint_cints inv sqrt tval outer plus n p obs pred J H) a =
+  (tval * sqrt (vget (confint_var inv outer plus n p obs pred J H) a))%K.
+Proof. exact (confint_cints_formula F inv n p obs pred J outer plus H sqrt tval a). Qed.
+Print Assumptions C17_confint_cints.
+
+(* REFUTED for the Hessian term as long as the source contracts over the wrong index or adds the term:
+   a concrete input on which the model of the code differs from the property's formula *)
+Theorem C17_confint_hessian_term_refuted (outer plus : bool) : outer = true \/ plus = true ->
+  exists (n p : nat) (obs pred : list QIF) (J : mat QIF) (H : ten3 QIF) (B : nat -> nat -> QIF),
+    let M := confint_info outer plus n p J (Some H) (residual n obs pred) in
+    (is_rinv QIF p (mget M) (mget (minv_adj M)) /\ is_rinv QIF p (mget (minv_adj M)) (mget M)) /\
+    is_rinv QIF p (info_spec QIF n obs pred J (Some H)) B /\
+    vget (confint_var minv_adj outer plus n p obs pred J (Some H)) 0%nat <>
+      (B 0%nat 0%nat * (sse_spec QIF n obs pred * kinv (kofnat (n - p))))%K.
+Proof. exact (confint_hessian_term_refuted outer plus). Qed.
+Print Assumptions C17_confint_hessian_term_refuted.
+
+(* the einsum contractions found in the source are those the model is written for *)
+Theorem C17_einsum_menu :
+  crlb_einsums = crlb_menu /\ crlb_split_einsums = crlb_split_menu /\
+  confint_einsums = confint_menu confint_hess_outer confint_hess_plus.
+Proof. exact einsum_menu_ok. Qed.
+Print Assumptions C17_einsum_menu.
+
+(* the executed inverse: a positive answer of the check is a proof of the inverse hypotheses; and the executed
+   scalars are a field *)
+Theorem C17_inv_check_sound (F : FieldOps) (L : FieldLaws F) (inv : mat F -> mat F) (p : nat) (A : mat F) :
+  inv_ok_b inv p A = true -> is_rinv F p (mget A) (mget (inv A)) /\ is_rinv F p (mget (inv A)) (mget A).
+Proof. exact (inv_ok_b_sound F L inv p A). Qed.
+Print Assumptions C17_inv_check_sound.
+
+Theorem C17_adjugate_2x2 (F : FieldOps) (L : FieldLaws F) (a b c e : F) : (a * e - b * c)%K <> k0 ->
+  let M := [[a; b]; [c; e]] in
+  is_rinv F 2 (mget M) (mget (minv_adj M)) /\ is_rinv F 2 (mget (minv_adj M)) (mget M).
+Proof. exact (minv_adj_2x2 F L a b c e). Qed.
+Print Assumptions C17_adjugate_2x2.
+
+Theorem C17_executed_field : FieldLaws QIF.
+Proof. exact QIFlaws. Qed.
+Print Assumptions C17_executed_field.
+
+(* t table: every looked-up value satisfies the Student-t specification, given the per-entry Interval proofs
+   (the premise is discharged entry by entry, on every run, in Cases/C17_ttab_*.v) *)
+Theorem C17_tstat_lookup_sound (level : Q) (nu : nat) (t : Q) :
+  List.Forall tstat_entry_ok tstat_table -> tstat_lookup level nu = Some t -> tstat_ok level nu t.
+Proof. exact (tstat_lookup_sound level nu t). Qed.
+Print Assumptions C17_tstat_lookup_sound.
+
+(* non-vacuity: the inverse hypotheses hold for a concrete complex 3x2 Jacobian on the executed instance *)
+Example C17_nonvacuous :
+  let J : mat QIF := [[qi 1 1 1 1; qi 0 1 2 1]; [qi 2 1 0 1; qi 1 1 (-1) 1]; [qi 0 1 1 1; qi 3 1 0 1]] in
+  let A := fisher (F:=QIF) 3%nat 2%nat (qr 2 1) J in
+  is_rinv QIF 2%nat (mget A) (mget (minv_adj A)) /\ is_rinv QIF 2%nat (mget (minv_adj A)) (mget A).
+Proof. exact crlb_hyps_nonvacuous. Qed.
